@@ -70,6 +70,15 @@ type wire struct {
 	assertIss         string
 	assertValid       bool   // signed by a key registered for assertIss, audience = issuer, inside its validity
 	assertKey         string // (description only) "<kid in the header>/<pool key it is signed with>"
+
+	// an assertion that deviates from the honest one (Op.Assert; cred_test.go)
+	assertOwnKey bool   // it carries a genuine signature by the key registered for assertIss under its key id
+	assertDefect string // "" | why it is nevertheless no credential towards this provider: audience (made for somebody else) | expired
+	assertNote   string // "" | a deviation about which the statement is silent (iat, sub != iss, client_assertion_type, audience = another spelling of the issuer / an endpoint of this provider)
+	assertKind   string // (description only) Op.Assert
+	assertShow   string // (description only) the deviating members
+	// rawSec: the bytes sent as password of a Basic header that is not form-encoded, when form-decoding changes them (basicSec = decoded)
+	rawSec string
 }
 
 // String renders what was sent (set members only; failure messages are cut at 600 characters by the driver).
@@ -86,6 +95,12 @@ func (w wire) String() string {
 	}
 	if w.hasAssertion {
 		p = append(p, fmt.Sprintf("assertion iss=%s kid/key=%s valid=%v", w.assertIss, w.assertKey, w.assertValid))
+		if w.assertKind != "" {
+			p = append(p, fmt.Sprintf("%s[%s]", w.assertKind, w.assertShow))
+		}
+	}
+	if w.rawSec != "" {
+		p = append(p, fmt.Sprintf("Basic password sent without form-encoding: %q", w.rawSec))
 	}
 	return "{" + strings.Join(p, " ") + "}"
 }
@@ -153,6 +168,9 @@ func proves(w wire, c *vkit.ClientSpec) bool {
 		if w.hasAssertion && w.assertValid && w.assertIss == c.ID {
 			return true
 		}
+		if w.hasAssertion && w.assertIss == c.ID && w.greyAssertion() {
+			return true // callerIs never calls that clean
+		}
 		// the secret the storage holds and accepts for this client: a genuine credential of c, presented by a method c is
 		// not registered for (callerIs never calls that clean)
 		return c.Secret != "" && ((w.hasBasic && w.basicID == c.ID && w.basicSec == c.Secret) || (w.bodyID == c.ID && w.bodySec == c.Secret))
@@ -161,6 +179,12 @@ func proves(w wire, c *vkit.ClientSpec) bool {
 	}
 	// a method the OP does not implement: the only credential of c that exists on this wire is its secret
 	return rightSecret(w, c)
+}
+
+// greyAssertion: signed by the named client's own key, made for this provider and not expired, but deviating in something the
+// statement does not speak about.
+func (w wire) greyAssertion() bool {
+	return w.hasAssertion && !w.assertValid && w.assertOwnKey && w.assertDefect == "" && w.assertNote != ""
 }
 
 // callerIs: +1 the caller is cleanly client r (its registered method, no second identity),
@@ -180,12 +204,24 @@ func callerIs(w wire, r *vkit.ClientSpec, all []vkit.ClientSpec, emptySecretOK b
 		}
 	}
 	if !proves(w, r) {
+		if w.hasAssertion && w.assertOwnKey && w.assertIss == r.ID && w.assertDefect != "" {
+			// r's own signature, on an assertion that r made for somebody else / that is no longer valid: whoever holds it is not
+			// thereby authenticated as r towards this provider
+			return -1, "bad-assertion:" + w.assertDefect
+		}
+		if w.rawSec != "" && w.hasBasic && w.basicID == r.ID && r.Secret != "" && w.rawSec == r.Secret && !public(r) {
+			// r's secret, in a Basic header that is not form-encoded (what many clients send): the caller does hold the secret
+			return 0, "basic-secret-not-form-encoded"
+		}
 		for i := range all {
 			if all[i].ID != r.ID && proves(w, &all[i]) {
 				return -1, "foreign-client"
 			}
 		}
 		return -1, "bad-credentials"
+	}
+	if r.AuthMethod == "private_key_jwt" && w.assertIss == r.ID && w.greyAssertion() {
+		return 0, "assertion:" + w.assertNote
 	}
 	cl := w.claimed()
 	only := len(cl) == 1 && cl[r.ID]
